@@ -216,6 +216,38 @@ package raft
 //@   ensures #no-overwrite [C18] forall p int :: old(ms.ents.off) <= p && p < old(ms.ents.off) + old(len(ms.ents)) ==> elem(old(ms.ents), p) == old(elem(ms.ents, p))
 //@   ensures #wf wf_ms(ms) && result == nil
 
+//@ -- ApplySnapshot: a snapshot that is not newer than the stored one is refused and leaves the log alone (C09/C18); a newer one
+//@ -- replaces the log by the single dummy entry at the snapshot's (index, term)
+//@ func raft.MemoryStorage.ApplySnapshot [C18 C09 C05]
+//@   requires wf_ms(ms) && snap != nil
+//@   requires #a-arith snapIndex(snap) < 4611686018427387904
+//@   frame raft.MemoryStorage: ms
+//@   ensures #out-of-date-refused [C09 C18] old(snapIndex(ms.snapshot) != 0 && snapIndex(ms.snapshot) >= snapIndex(snap)) ==> result == ErrSnapOutOfDate && ms_log_unchanged(ms)
+//@        && ms.snapshot == old(ms.snapshot)
+//@   ensures #installed [C09 C18] !old(snapIndex(ms.snapshot) != 0 && snapIndex(ms.snapshot) >= snapIndex(snap)) ==> result == nil && len(ms.ents) == 1
+//@        && ms_off(ms) == old(snapIndex(snap)) && eterm(ms.ents[0]) == old(snapTerm(snap)) && fresh(ms.ents) && ms.snapshot != nil && fresh(ms.snapshot)
+//@   ensures #no-overwrite [C18] forall p int :: old(ms.ents.off) <= p && p < old(ms.ents.off) + old(len(ms.ents)) ==> elem(old(ms.ents), p) == old(elem(ms.ents, p))
+//@   ensures #wf wf_ms(ms)
+
+//@ -- CreateSnapshot: only forward (an index at or below the stored snapshot is refused and nothing changes), never past the stored
+//@ -- log (usage precondition: the library panics otherwise), and the stored entries are not touched
+//@ func raft.MemoryStorage.CreateSnapshot [C18 C09 C14]
+//@   requires wf_ms(ms)
+//@   requires #usage [C14] i <= snapIndex(ms.snapshot) || i <= ms_last(ms)
+//@   requires #above-compaction [C14] i <= snapIndex(ms.snapshot) || i >= ms_off(ms)
+//@   frame raft.MemoryStorage: ms
+//@   ensures #out-of-date-refused [C09 C18] old(i <= snapIndex(ms.snapshot)) ==> result0 == nil && result1 == ErrSnapOutOfDate && ms.snapshot == old(ms.snapshot)
+//@   ensures #created [C09 C18] !old(i <= snapIndex(ms.snapshot)) ==> result1 == nil && result0 != nil && fresh(result0) && snapIndex(ms.snapshot) == i
+//@        && snapTerm(ms.snapshot) == old(eterm(ms_ent(ms, i))) && snapIndex(result0) == i && snapTerm(result0) == snapTerm(ms.snapshot)
+//@   ensures #log-untouched [C18] ms_log_unchanged(ms) && wf_ms(ms)
+//@ func raft.MemoryStorage.SetHardState [C07]
+//@   requires ms != nil
+//@   frame raft.MemoryStorage: ms
+//@   ensures #stored [C07] result == nil && ms.hardState == st && ms.ents == old(ms.ents) && ms.snapshot == old(ms.snapshot)
+//@ func raft.MemoryStorage.InitialState [C07]
+//@   requires ms != nil
+//@   ensures #hard-state [C07] result2 == nil && result0 == ms.hardState && result1 != nil
+
 //@ func raft.MemoryStorage.Compact [C18 C14]
 //@   requires wf_ms(ms)
 //@   requires #usage [C14] compactIndex <= ms_last(ms)
@@ -959,6 +991,7 @@ package raft
 //@   ensures #only-app-or-snap result ==> lastMsg(r).GetType() == pb.MsgApp || lastMsg(r).GetType() == pb.MsgSnap
 //@   ensures #no-entries-when-full [C16] result && lastMsg(r).GetType() == pb.MsgApp && old(r.trk.Progress[to].State == tracker.StateReplicate && fullSpec(r.trk.Progress[to].Inflights)) ==> len(lastMsg(r).Entries) == 0
 //@   ensures #match-kept [C06] r.trk.Progress[to].Match == old(r.trk.Progress[to].Match) && r.trk.Progress == old(r.trk.Progress)
+//@   ensures #activity-kept [C17] r.trk.Progress[to].RecentActive == old(r.trk.Progress[to].RecentActive) && r.trk.Progress[to].IsLearner == old(r.trk.Progress[to].IsLearner)
 //@   ensures #deferred-untouched [C05] r.msgsAfterAppend == old(r.msgsAfterAppend)
 //@   ensures #next-in-log [C14] progress_in_log(r, r.trk.Progress[to]) && log_last(r.raftLog) == old(log_last(r.raftLog))
 //@   ensures #rest raft_kept_but_msgs(r) && r.raftLog.committed == old(r.raftLog.committed)
@@ -980,6 +1013,7 @@ package raft
 //@   ensures #match-kept [C06] r.trk.Progress[to].Match == old(r.trk.Progress[to].Match) && r.trk.Progress == old(r.trk.Progress)
 //@   ensures #snapshot-stays-pending [C16] old(r.trk.Progress[to].State == tracker.StateSnapshot) ==> r.msgs == old(r.msgs) && r.trk.Progress[to].State == tracker.StateSnapshot
 //@        && r.trk.Progress[to].PendingSnapshot == old(r.trk.Progress[to].PendingSnapshot)
+//@   ensures #activity-kept [C17] r.trk.Progress[to].RecentActive == old(r.trk.Progress[to].RecentActive) && r.trk.Progress[to].IsLearner == old(r.trk.Progress[to].IsLearner)
 //@   ensures #rest raft_kept_but_msgs(r) && r.raftLog.committed == old(r.raftLog.committed)
 //@   ensures #wf wf_raft(r) && hs_monotone(r)
 
@@ -1633,6 +1667,11 @@ package raft
 //@   trusted
 //@   modifies F$raftpb.ConfChange, F$raftpb.ConfChangeV2, alloc F$raftpb.ConfChangeSingle, alloc C$uint64, alloc C$raftpb.ConfChangeType, alloc C$raftpb.ConfChangeTransition, alloc E$uint8, alloc E$*raftpb.ConfChangeSingle
 //@   ensures dataOK(b.arr, b.off, len(b)) ==> result == nil
+//@ -- T-lib (protobuf): Marshal encodes into a fresh byte slice and writes nothing else; what it produces decodes again (round trip)
+//@ func proto.Marshal
+//@   trusted
+//@   modifies alloc E$uint8
+//@   ensures result1 == nil ==> (len(result0) > 0 ==> fresh(result0)) && dataOK(result0.arr, result0.off, len(result0))
 //@ func raftpb.ConfChangeI.AsV2
 //@   modifies alloc F$raftpb.ConfChangeV2, alloc F$raftpb.ConfChangeSingle, alloc C$uint64, alloc C$raftpb.ConfChangeType, alloc E$*raftpb.ConfChangeSingle
 //@   ensures result != nil
@@ -1689,14 +1728,12 @@ package raft
 //@        && (p >= m.Entries.off + iter && isConfEntry(elem(m.Entries, p)) ==> dataOK(elem(m.Entries, p).Data.arr, elem(m.Entries, p).Data.off, len(elem(m.Entries, p).Data)))
 //@   loop 1 invariant #untouched-tail forall p int :: {elem(m.Entries, p)} m.Entries.off + iter <= p && p < m.Entries.off + len(m.Entries) ==> elem(m.Entries, p) == oldelem(m.Entries, p)
 //@   loop 1 invariant #types-kept allocframe("F$raftpb.Entry", "C$raftpb.EntryType")
+//@   -- C10: an index is recorded only for the entry just examined and only if that entry is a configuration change (checked where it is recorded;
+//@   -- that the recorded index lies in the range of this proposal's entries is the loop invariant #pending-conf)
+//@   after raft.traceChangeConfEvent assert #recorded-entry-is-conf [C10] isConfEntry(e) && e == elem(m.Entries, m.Entries.off + iter)
+//@   after raft.traceChangeConfEvent assert #recorded-index-exact [C10] r.pendingConfIndex == log_last(r.raftLog) + iter + 1
 //@   loop 1 invariant #pending-conf [C10] r.pendingConfIndex == old(r.pendingConfIndex)
 //@        || (log_last(r.raftLog) + 1 <= r.pendingConfIndex && r.pendingConfIndex < log_last(r.raftLog) + 1 + iter)
-//@   loop 1 invariant #types-same forall p int, e *pb.Entry :: {oldelem(m.Entries, p), old(e.GetType())} m.Entries.off <= p && p < m.Entries.off + len(m.Entries) && e == oldelem(m.Entries, p) ==> e.GetType() == old(e.GetType())
-//@   after proto.Unmarshal assert #entry-is-conf forall e *pb.Entry :: e == oldelem(m.Entries, m.Entries.off + i) ==> e == elem(m.Entries, m.Entries.off + i) && old(isConfEntry(e))
-//@   loop 1 invariant #pending-conf-is-conf [C10] r.pendingConfIndex != old(r.pendingConfIndex) ==>
-//@        (forall e *pb.Entry :: e == oldelem(m.Entries, m.Entries.off + (r.pendingConfIndex - log_last(r.raftLog) - 1)) ==> old(isConfEntry(e)))
-//@   loop 1 invariant #pending-conf-kept [C10] r.pendingConfIndex != old(r.pendingConfIndex) ==>
-//@        elem(m.Entries, m.Entries.off + (r.pendingConfIndex - log_last(r.raftLog) - 1)) == oldelem(m.Entries, m.Entries.off + (r.pendingConfIndex - log_last(r.raftLog) - 1))
 //@   loop 1 invariant #conf-gate [C10] r.pendingConfIndex != old(r.pendingConfIndex) ==> r.disableConfChangeValidation || old(r.pendingConfIndex) <= r.raftLog.applied
 //@   visit 1 invariant #state wf_raft(r) && typestate(r) && hs_monotone(r) && r.Term == old(r.Term) && r.msgs == old(r.msgs) && r.msgsAfterAppend == old(r.msgsAfterAppend)
 //@        && r.raftLog.committed == old(r.raftLog.committed) && r.trk.Progress == old(r.trk.Progress) && r.id == old(r.id)
@@ -1728,6 +1765,9 @@ package raft
 //@   ensures #snapshot-stays-pending [C16] old(has(r.trk.Progress, m.GetFrom()) && r.trk.Progress[m.GetFrom()].State == tracker.StateSnapshot
 //@        && (m.GetType() == pb.MsgUnreachable || m.GetType() == pb.MsgHeartbeatResp || m.GetType() == pb.MsgTransferLeader || (m.GetType() == pb.MsgAppResp && m.GetReject())))
 //@        ==> (forall p *tracker.Progress :: p == old(r.trk.Progress[m.GetFrom()]) ==> p.State == tracker.StateSnapshot && p.PendingSnapshot == old(p.PendingSnapshot))
+//@   -- C17: only a response from the peer itself counts as activity; reports injected by the application do not
+//@   ensures #recent-active-only-on-response [C17] old(has(r.trk.Progress, m.GetFrom()) && (m.GetType() == pb.MsgUnreachable || m.GetType() == pb.MsgSnapStatus || m.GetType() == pb.MsgTransferLeader)) ==>
+//@        (forall p *tracker.Progress :: p == old(r.trk.Progress[m.GetFrom()]) ==> p.RecentActive == old(p.RecentActive))
 //@   ensures #snap-status-keeps-match [C06] old(m.GetType() == pb.MsgSnapStatus || m.GetType() == pb.MsgUnreachable || m.GetType() == pb.MsgTransferLeader || m.GetType() == pb.MsgHeartbeatResp
 //@        || m.GetType() == pb.MsgBeat || m.GetType() == pb.MsgReadIndex || m.GetType() == pb.MsgForgetLeader || (m.GetType() == pb.MsgAppResp && m.GetReject())) ==> matches_kept(r)
 //@   ensures #match-only-up [C06] old(m.GetType() == pb.MsgAppResp && !m.GetReject() && has(r.trk.Progress, m.GetFrom())) ==> r.trk.Progress == old(r.trk.Progress)
@@ -1921,6 +1961,15 @@ package raft
 //@        ==> elem(result.Messages, p) == oldelem(rn.raft.msgs, old(rn.raft.msgs.off) + (p - result.Messages.off))))
 //@   ensures #async-deferred-not-direct [C05] rn.asyncStorageWrites ==> len(result.Messages) <= len(rn.raft.msgs) + 2
 //@        && (forall j int :: len(rn.raft.msgs) <= j && j < len(result.Messages) ==> result.Messages[j].GetType() == pb.MsgStorageAppend || result.Messages[j].GetType() == pb.MsgStorageApply)
+//@   -- async mode: the storage-append request carries exactly what this Ready asks to persist (entries, the hard state when there is one, the snapshot when there is one)
+//@   ensures #async-append-carries-state [C05 C09] rn.asyncStorageWrites && len(result.Messages) > len(rn.raft.msgs) && result.Messages[len(rn.raft.msgs)].GetType() == pb.MsgStorageAppend ==>
+//@        result.Messages[len(rn.raft.msgs)].Entries == result.Entries
+//@        && (result.Snapshot != nil && snapIndex(result.Snapshot) != 0 ==> result.Messages[len(rn.raft.msgs)].Snapshot == result.Snapshot)
+//@        && (result.HardState != nil && !(result.HardState.GetTerm() == 0 && result.HardState.GetVote() == 0 && result.HardState.GetCommit() == 0) ==>
+//@              result.Messages[len(rn.raft.msgs)].GetTerm() == result.HardState.GetTerm() && result.Messages[len(rn.raft.msgs)].GetVote() == result.HardState.GetVote()
+//@              && result.Messages[len(rn.raft.msgs)].GetCommit() == result.HardState.GetCommit())
+//@   ensures #async-append-needed [C05] rn.asyncStorageWrites && (len(result.Entries) > 0 || (result.Snapshot != nil && snapIndex(result.Snapshot) != 0) || len(rn.raft.msgsAfterAppend) > 0) ==>
+//@        len(result.Messages) > len(rn.raft.msgs) && result.Messages[len(rn.raft.msgs)].GetType() == pb.MsgStorageAppend
 //@   ensures #committed-batch [C08] ready_committed_wf(rn, result.CommittedEntries)
 //@   ensures #wf wf_rawnode(rn)
 //@   ensures #unchanged node_unchanged(rn.raft) && rn.prevHardSt == old(rn.prevHardSt) && rn.prevSoftSt == old(rn.prevSoftSt) && rn.stepsOnAdvance == old(rn.stepsOnAdvance)
@@ -1978,3 +2027,117 @@ package raft
 //@   ensures #apply-cursor [C08] len(result.CommittedEntries) > 0 ==> rn.raft.raftLog.applying == eindex(result.CommittedEntries[len(result.CommittedEntries) - 1])
 //@   ensures #rest rn.raft.Term == old(rn.raft.Term) && rn.raft.Vote == old(rn.raft.Vote) && rn.raft.state == old(rn.raft.state) && rn.raft.raftLog.committed == old(rn.raft.raftLog.committed)
 //@   ensures #wf wf_rawnode(rn)
+
+//@ -- ------------------------------------------------------------------------------------------
+//@ -- start-up: newRaft establishes the node invariant from a consistent Storage (base case of the per-call invariants).
+//@ -- E-storage-consistent (assumed of the Storage implementation and the application that filled it): InitialState does not fail, the
+//@ -- persisted hard state is empty or has its commit index inside the stored log, the ConfState is one this library produced, and the
+//@ -- storage snapshot ends where the stored log begins.
+//@ ufun st_hs_term(s Storage) uint64
+//@ ufun st_hs_vote(s Storage) uint64
+//@ ufun st_hs_commit(s Storage) uint64
+//@ func raft.Storage.InitialState
+//@   modifies alloc F$raftpb.HardState, alloc F$raftpb.ConfState, alloc C$uint64, alloc C$bool, alloc E$uint64
+//@   ensures #no-error result2 == nil && result0 != nil && result1 != nil && confStateOK(result1)
+//@   ensures #hard-state result0.GetTerm() == st_hs_term(self) && result0.GetVote() == st_hs_vote(self) && result0.GetCommit() == st_hs_commit(self)
+//@   ensures #consistent (st_hs_term(self) == 0 && st_hs_vote(self) == 0 && st_hs_commit(self) == 0)
+//@        || (st_hs_commit(self) + 1 >= st_first(self) && st_hs_commit(self) <= st_last(self) && st_hs_term(self) < 9223372036854775808)
+//@ func raft.newLogWithSize [C18 C14 C08]
+//@   requires #storage [C14] wf_storage(storage) && st_snapindex(storage) + 1 == st_first(storage)
+//@   reveal wf_raftLog, wf_unstable, wf_storage, termsMonotone
+//@   ensures #fresh result != nil && fresh(result) && wf_raftLog(result)
+//@   ensures #cursors [C08] result.committed == st_first(storage) - 1 && result.applying == result.committed && result.applied == result.committed
+//@        && log_last(result) == st_last(storage) && result.storage == storage && result.unstable.snapshot == nil && len(result.unstable.entries) == 0
+//@        && result.maxApplyingEntsSize == maxApplyingEntsSize && result.applyingEntsSize == 0 && !result.applyingEntsPaused
+//@ func raft.getLogger
+//@   trusted
+//@   pure
+//@   ensures !isnil(result)
+//@ pred config_valid(c *Config) := c.ID != 0 && c.ID != 18446744073709551615 && c.ID != 18446744073709551614 && c.HeartbeatTick > 0 && c.ElectionTick > c.HeartbeatTick
+//@     && c.ElectionTick <= 1073741824 && !isnil(c.Storage) && c.MaxInflightMsgs > 0 && (c.MaxInflightBytes == 0 || c.MaxInflightBytes >= c.MaxSizePerMsg)
+//@     && !(c.ReadOnlyOption == ReadOnlyLeaseBased && !c.CheckQuorum)
+//@ func raft.newRaft [C07 C14 C02 C16]
+//@   requires c != nil
+//@   requires #config-valid [C14] config_valid(c)
+//@   requires #storage-consistent [C14] wf_storage(c.Storage) && st_snapindex(c.Storage) + 1 == st_first(c.Storage)
+//@   requires #globals empty_state_zero()
+//@   requires #applied-in-range [C14] c.Applied == 0 || (c.Applied + 1 >= st_first(c.Storage) && c.Applied <= st_hs_commit(c.Storage))
+//@   reveal wf_raftLog, wf_unstable, wf_storage, wf_trk, trk_distinct, wf_readOnly
+//@   loop 1 invariant #range 0 <= iter
+//@   ensures #result result != nil && fresh(result)
+//@   ensures #hard-state-restored [C07 C02] result.Term == st_hs_term(c.Storage) && result.Vote == st_hs_vote(c.Storage)
+//@   ensures #follower [C02] result.state == StateFollower && result.lead == 0 && result.id == c.ID
+//@   ensures #limits [C16] result.trk.MaxInflight == c.MaxInflightMsgs
+//@   ensures #node-inv [C14] wf_raft(result) && typestate(result) && result.trk.MaxInflight >= 1 && reads_wf(result)
+
+//@ func raft.NewRawNode [C07 C14 C19]
+//@   requires config != nil
+//@   requires #config-valid [C14] config_valid(config)
+//@   requires #storage-consistent [C14] wf_storage(config.Storage) && st_snapindex(config.Storage) + 1 == st_first(config.Storage)
+//@   requires #globals empty_state_zero()
+//@   requires #applied-in-range [C14] config.Applied == 0 || (config.Applied + 1 >= st_first(config.Storage) && config.Applied <= st_hs_commit(config.Storage))
+//@   ensures #ok result1 == nil && result0 != nil && fresh(result0) && wf_rawnode(result0) && result0.asyncStorageWrites == config.AsyncStorageWrites
+//@   ensures #restored [C07 C02] result0.raft.Term == st_hs_term(config.Storage) && result0.raft.Vote == st_hs_vote(config.Storage) && result0.raft.state == StateFollower
+//@   -- the restored hard state counts as already emitted: the first Ready does not hand it out again, and any change is measured against it
+//@   ensures #hard-state-remembered [C07 C19] result0.prevHardSt.GetTerm() == result0.raft.Term && result0.prevHardSt.GetVote() == result0.raft.Vote
+//@        && result0.prevHardSt.GetCommit() == result0.raft.raftLog.committed && fresh(result0.prevHardSt)
+//@   ensures #node-inv [C14] typestate(result0.raft) && result0.raft.trk.MaxInflight >= 1 && reads_wf(result0.raft)
+
+//@ -- ------------------------------------------------------------------------------------------
+//@ -- RawNode.Step: the network-facing entry point filters messages that may only originate locally and responses from unknown peers
+//@ -- before raft.Step sees them (C14: such a message never reaches a handler; the node is untouched).
+//@ -- T-globals: the message-class tables are package-level array literals that nothing writes; their contents are read off the literals.
+//@ pred localMsgType(t pb.MessageType) := t == pb.MsgHup || t == pb.MsgBeat || t == pb.MsgUnreachable || t == pb.MsgSnapStatus || t == pb.MsgCheckQuorum
+//@     || t == pb.MsgStorageAppend || t == pb.MsgStorageAppendResp || t == pb.MsgStorageApply || t == pb.MsgStorageApplyResp
+//@ pred responseMsgType(t pb.MessageType) := t == pb.MsgAppResp || t == pb.MsgVoteResp || t == pb.MsgHeartbeatResp || t == pb.MsgUnreachable || t == pb.MsgReadIndexResp
+//@     || t == pb.MsgPreVoteResp || t == pb.MsgStorageAppendResp || t == pb.MsgStorageApplyResp
+//@ pred localTarget(id uint64) := id == 18446744073709551615 || id == 18446744073709551614
+//@ func raft.IsLocalMsg [C14]
+//@   trusted
+//@   pure
+//@   ensures #table result <==> localMsgType(msgt)
+//@ func raft.IsResponseMsg [C14]
+//@   trusted
+//@   pure
+//@   ensures #table result <==> responseMsgType(msgt)
+//@ func raft.RawNode.Step [C14 C20 C07]
+//@   requires wf_rawnode(rn) && m != nil
+//@   requires #node-inv node_inv(rn.raft) && node_inv_assumed(rn.raft)
+//@   requires #msg-wf [C14] step_msg_wf(rn.raft, m)
+//@   ensures #local-from-network-rejected [C14] old(localMsgType(m.GetType()) && !localTarget(m.GetFrom())) ==> result == ErrStepLocalMsg && node_unchanged(rn.raft)
+//@   ensures #response-from-stranger-rejected [C14] old(!(localMsgType(m.GetType()) && !localTarget(m.GetFrom())) && responseMsgType(m.GetType()) && !localTarget(m.GetFrom())
+//@        && !(has(rn.raft.trk.Progress, m.GetFrom()) && rn.raft.trk.Progress[m.GetFrom()] != nil)) ==> result == ErrStepPeerNotFound && node_unchanged(rn.raft)
+//@   ensures #wf wf_rawnode(rn) && hs_monotone(rn.raft) && rn.raft == old(rn.raft)
+
+//@ -- ------------------------------------------------------------------------------------------
+//@ -- The local operations of the API (C14's quantifier: Campaign, Propose, ReadIndex, TransferLeader, ReportUnreachable, ReportSnapshot,
+//@ -- ForgetLeader at any node in any role): each builds its message here, so that message's well-formedness (step_msg_wf) is PROVED
+//@ -- at the call of raft.Step instead of being assumed of the environment; what remains assumed is the node invariant.
+//@ pred api_ready(rn *RawNode) := wf_rawnode(rn) && node_inv(rn.raft) && node_inv_assumed(rn.raft)
+//@ func raft.RawNode.Campaign [C14 C02]
+//@   requires api_ready(rn)
+//@   ensures #wf wf_rawnode(rn) && hs_monotone(rn.raft) && rn.raft == old(rn.raft)
+//@ func raft.RawNode.ForgetLeader [C14 C17]
+//@   requires api_ready(rn)
+//@   ensures #wf wf_rawnode(rn) && hs_monotone(rn.raft) && rn.raft == old(rn.raft)
+//@ func raft.RawNode.TransferLeader [C14 C17]
+//@   requires api_ready(rn)
+//@   -- a follower that knows a leader has a term (the leader stamped the message it learnt it from); not part of wf_raft yet
+//@   requires #known-leader-has-term [C14] rn.raft.lead != 0 ==> rn.raft.Term >= 1
+//@   ensures #wf wf_rawnode(rn) && hs_monotone(rn.raft) && rn.raft == old(rn.raft)
+//@ func raft.RawNode.ReportUnreachable [C14 C16]
+//@   requires api_ready(rn)
+//@   ensures #wf wf_rawnode(rn) && hs_monotone(rn.raft) && rn.raft == old(rn.raft)
+//@ func raft.RawNode.ReportSnapshot [C14 C16]
+//@   requires api_ready(rn)
+//@   ensures #wf wf_rawnode(rn) && hs_monotone(rn.raft) && rn.raft == old(rn.raft)
+//@ func raft.RawNode.ReadIndex [C14 C11]
+//@   requires api_ready(rn)
+//@   -- a follower that knows a leader has a term (the leader stamped the message it learnt it from); not part of wf_raft yet
+//@   requires #known-leader-has-term [C14] rn.raft.lead != 0 ==> rn.raft.Term >= 1
+//@   ensures #wf wf_rawnode(rn) && hs_monotone(rn.raft) && rn.raft == old(rn.raft)
+//@ func raft.RawNode.Propose [C14 C20]
+//@   requires api_ready(rn)
+//@   -- a follower that knows a leader has a term (the leader stamped the message it learnt it from); not part of wf_raft yet
+//@   requires #known-leader-has-term [C14] rn.raft.lead != 0 ==> rn.raft.Term >= 1
+//@   ensures #wf wf_rawnode(rn) && hs_monotone(rn.raft) && rn.raft == old(rn.raft)
